@@ -1099,6 +1099,19 @@ pub fn run_c09(tier: Tier) -> i32 {
     let mut cf = mk(3, 3, tier.pick(6, 7), 1, false, &bursts);
     cf.faults = CONTENT_FAULTS.to_vec();
     plan.push(("3conns/3calls/6-7events/1-long-non-ascii-undecodable-frame", cf, 0));
+    // the same fault on several connections, one after the other, and calls that need the receive
+    // buffer to grow on the others (whatever the server accounts per connection must be settled when
+    // the connection goes)
+    #[cfg(zlink_verif_small_buf)]
+    {
+        let big: Vec<Vec<CK>> = vec![vec![CK::P], vec![CK::B], vec![CK::B, CK::P]];
+        let mut rep = mk(4, 2, tier.pick(8, 9), 3, false, &big);
+        rep.faults = vec![Fault::Oversized];
+        plan.push(("4conns/2calls/8-9events/up-to-3-oversized-frames", rep, 0));
+        let mut rep2 = mk(3, 2, tier.pick(6, 7), 2, false, &big);
+        rep2.faults = vec![Fault::Oversized, Fault::LongGarbage(0), Fault::Eof];
+        plan.push(("3conns/2calls/6-7events/2-faults-and-calls-larger-than-the-buffer", rep2, 0));
+    }
     // faults while a stream is open
     bursts.push(vec![CK::W(1, true)]);
     plan.push(("streams/2conns/3calls/7-8events/1fault", mk(2, 3, tier.pick(7, 8), 1, false, &bursts), 0));
